@@ -15,16 +15,20 @@ VARIABLE l
 HasF(r, f) == f \in DOMAIN r
 
 \* what a caller can observe of one slot: len, capacity, emptiness, contents
-SlotObs(r) == [s |-> r.s, len |-> r.len, cap |-> r.cap, empty |-> r.empty,
-               contents |-> IF r.full = 1 THEN ToSet(r.main) \cup ToSet(r.old) ELSE {}]
-StObs(e) == IF HasF(e, "st") THEN {SlotObs(e.st[i]) : i \in DOMAIN e.st} ELSE {}
+SlotObs(r, withContents) ==
+    [s |-> r.s, len |-> r.len, cap |-> r.cap, empty |-> r.empty,
+     contents |-> IF withContents /\ r.full = 1 THEN ToSet(r.main) \cup ToSet(r.old) ELSE {}]
+\* contents are compared only where both recordings logged them
+AllFull(e) == HasF(e, "st") /\ \A i \in DOMAIN e.st : e.st[i].full = 1
+StObsW(e, w) == IF HasF(e, "st") THEN {SlotObs(e.st[i], w) : i \in DOMAIN e.st} ELSE {}
+StObs(e) == StObsW(e, TRUE)
 \* results: everything but the free-text panic message (file/line differ between profiles)
 ResObs(e) ==
     IF ~HasF(e, "res") THEN <<>>
     ELSE IF e.res.t = "panic" THEN <<"panic", e.res.class>>
     ELSE <<"ok", [f \in DOMAIN e.res |-> e.res[f]]>>
 Field(e, f) == IF HasF(e, f) THEN e[f] ELSE <<>>
-Obs(e) == <<e.op, ResObs(e), StObs(e), Field(e, "yield"), Field(e, "cyield"), Field(e, "calls"), Field(e, "obs"),
+Obs(e) == <<e.op, ResObs(e), Field(e, "yield"), Field(e, "cyield"), Field(e, "calls"), Field(e, "obs"),
             Field(e, "hints"), Field(e, "tail"), Field(e, "dbg")>>
 
 Chk(name, cond) == IF cond THEN TRUE ELSE PrintT(<<"MONITOR-FAIL", "C17", name, l, A[l].op>>)
@@ -37,7 +41,8 @@ Step ==
             /\ Chk("same_operation", A[l].op = B[l].op)
             /\ (A[l].op = B[l].op) =>
                 /\ Chk("same_result", ResObs(A[l]) = ResObs(B[l]))
-                /\ Chk("same_len_capacity_contents", StObs(A[l]) = StObs(B[l]))
+                /\ Chk("same_len_capacity_contents",
+                       LET w == AllFull(A[l]) /\ AllFull(B[l]) IN StObsW(A[l], w) = StObsW(B[l], w))
                 /\ Chk("same_observations", Obs(A[l]) = Obs(B[l]))
                 /\ Chk("no_profile_dependent_panic", ~(HasF(A[l], "res") /\ A[l].res.t = "panic" /\ A[l].res.class = "other")
                                                      /\ ~(HasF(B[l], "res") /\ B[l].res.t = "panic" /\ B[l].res.class = "other"))) = TRUE
